@@ -88,7 +88,9 @@ class SectionUtils(object):
             if s is self:
                 output.append(f)
         for i, f in enumerate(output):
-            f.mark.attributes['num'] = i+1
+            # (a \footnotetext without a \footnotemark has no mark)
+            if f.mark is not None:
+                f.mark.attributes['num'] = i+1
         return output
 
     @cachedproperty
